@@ -28,6 +28,7 @@ import (
 	"time"
 
 	"github.com/opencontainers/go-digest"
+	ocispec "github.com/opencontainers/image-spec/specs-go/v1"
 	"oras.land/oras-go/v2/content/oci"
 	"oras.land/oras-go/v2/errdef"
 	"verifharness/common"
@@ -724,6 +725,7 @@ func genCase(r *common.Rand) (*dag.Graph, []op) {
 			break
 		}
 	}
+	addReferrers(r, g, r.Intn(5))
 	var pushable, manifests []int
 	for _, n := range g.Nodes {
 		if n.Foreign() {
@@ -746,20 +748,28 @@ func genCase(r *common.Rand) (*dag.Graph, []op) {
 		}
 		ops = append(ops, op{K: 'P', N: n})
 	}
+	// nodes of media type application/octet-stream are never tagged: Resolve(digest) could
+	// not tell the reference from the blob fallback
+	var named []int
+	for _, n := range pushable {
+		if g.Nodes[n].Desc.MediaType != "application/octet-stream" {
+			named = append(named, n)
+		}
+	}
 	taggable := manifests
 	if len(taggable) == 0 {
-		taggable = pushable
+		taggable = named
 	}
 	pickTaggable := func() int {
 		if r.Chance(1, 8) {
-			n := common.Pick(r, pushable)
-			if g.Nodes[n].Desc.MediaType != "application/octet-stream" {
-				return n
-			}
+			return common.Pick(r, named)
 		}
 		return common.Pick(r, taggable)
 	}
 	nt := r.Intn(4)
+	if len(taggable) == 0 {
+		nt = 0
+	}
 	for i := 0; i < nt; i++ {
 		ops = append(ops, op{K: 'T', N: pickTaggable(), T: r.Intn(nTags)})
 	}
@@ -776,6 +786,9 @@ func genCase(r *common.Rand) (*dag.Graph, []op) {
 		case x < 50:
 			ops = append(ops, op{K: 'G'})
 		case x < 65:
+			if len(taggable) == 0 {
+				continue
+			}
 			ops = append(ops, op{K: 'T', N: pickTaggable(), T: r.Intn(nTags)})
 		case x < 73:
 			ops = append(ops, op{K: 'U', T: r.Intn(nTags)})
@@ -791,6 +804,80 @@ func genCase(r *common.Rand) (*dag.Graph, []op) {
 		ops = append(ops, op{K: 'G'})
 	}
 	return g, ops
+}
+
+// addReferrers puts k more manifests on top of g: image manifests and indexes whose
+// subject is an existing manifest (referrer chains, referrers listed by other
+// referrers, referrers reachable only through another referrer).
+func addReferrers(r *common.Rand, g *dag.Graph, k int) {
+	for i := 0; i < k; i++ {
+		var blobs, manifests []int
+		for _, n := range g.Nodes {
+			if n.Foreign() {
+				continue
+			}
+			if n.IsManifest() {
+				manifests = append(manifests, n.ID)
+			} else {
+				blobs = append(blobs, n.ID)
+			}
+		}
+		if len(manifests) == 0 || len(blobs) == 0 {
+			return
+		}
+		pickM := func() int {
+			if r.Chance(1, 2) && len(manifests) > 2 {
+				return manifests[len(manifests)-1-r.Intn(2)]
+			}
+			return common.Pick(r, manifests)
+		}
+		id := len(g.Nodes)
+		nd := &dag.Node{ID: id, Subject: -1, TwinOf: -1}
+		withSubject := r.Chance(4, 5)
+		var subj *ocispec.Descriptor
+		if withSubject {
+			sj := pickM()
+			nd.Subject = sj
+			nd.Succ = append(nd.Succ, sj)
+			d := g.Nodes[sj].Desc
+			subj = &d
+		}
+		var body []byte
+		var mt string
+		if r.Chance(1, 2) {
+			nd.Kind = dag.KImage
+			mt = ocispec.MediaTypeImageManifest
+			var m ocispec.Manifest
+			m.SchemaVersion = 2
+			m.MediaType = mt
+			m.Subject = subj
+			c := common.Pick(r, blobs)
+			m.Config = g.Nodes[c].Desc
+			nd.Succ = append(nd.Succ, c)
+			m.Layers = []ocispec.Descriptor{}
+			m.Annotations = map[string]string{"verif.extra": strconv.Itoa(id)}
+			body, _ = json.Marshal(m)
+		} else {
+			nd.Kind = dag.KIndex
+			mt = ocispec.MediaTypeImageIndex
+			var ix ocispec.Index
+			ix.SchemaVersion = 2
+			ix.MediaType = mt
+			ix.Subject = subj
+			ix.Manifests = []ocispec.Descriptor{}
+			nm := 1 + r.Intn(2)
+			for j := 0; j < nm; j++ {
+				m := pickM()
+				ix.Manifests = append(ix.Manifests, g.Nodes[m].Desc)
+				nd.Succ = append(nd.Succ, m)
+			}
+			ix.Annotations = map[string]string{"verif.extra": strconv.Itoa(id)}
+			body, _ = json.Marshal(ix)
+		}
+		nd.Bytes = body
+		nd.Desc = ocispec.Descriptor{MediaType: mt, Digest: digest.FromBytes(body), Size: int64(len(body))}
+		g.Nodes = append(g.Nodes, nd)
+	}
 }
 
 func main() {
@@ -813,7 +900,7 @@ func main() {
 		run.Finish()
 		return
 	}
-	n := run.Scale(400, 12000)
+	n := run.Scale(2500, 60000)
 	for i := 0; i < n && hangs < 2; i++ {
 		cs := run.Rand.U64()
 		g, ops := genCase(common.NewRand(cs))
